@@ -64,6 +64,24 @@ def shape_twins(r, n):
         out.append(T.Node(r.choice(["Gal", "Man", "Glc"]), arms))
     return out
 
+def bicyclic_roots(r, n):
+    """1,6-anhydro reducing ends with two or three substituents, one of them a chain: which of them is written as the
+    main chain (and is therefore walked last) must not matter"""
+    out = []
+    for _ in range(n):
+        root = r.choice(["1,6-Anhydro-Glc", "1,6-Anhydro-Gal"])
+        poss = r.sample([2, 3, 4], r.choice([2, 3]))
+        kids = []
+        for i, p_ in enumerate(poss):
+            leaf = T.Node(r.choice(["Man", "Fuc", "Gal", "Xyl"]))
+            if i == 0:
+                kids.append((r.choice("ab"), 1, p_, T.Node(r.choice(["Gal", "Glc", "Man"]), [(r.choice("ab"), 1, r.choice([2, 3]), leaf)])))
+            else:
+                kids.append((r.choice("ab"), 1, p_, leaf))
+        r.shuffle(kids)
+        out.append(T.Node(root, kids))
+    return out
+
 
 def make_trees(r, tier):
     n = 24 if tier == "quick" else 200
@@ -75,6 +93,7 @@ def make_trees(r, tier):
         if any(len(k.kids) >= 2 for k in all_nodes(t)):
             trees.append(t)
     trees += shape_twins(r, 6 if tier == "quick" else 60)
+    trees += bicyclic_roots(r, 6 if tier == "quick" else 40)
     # four substituents on a non-root and on the root residue, nested
     four = T.Node("Glc", [("b", 1, 4, T.Node("Man", [("a", 1, 2, T.Node("Gal")), ("a", 1, 3, T.Node("Fuc")), ("b", 1, 4, T.Node("Xyl")), ("a", 2, 6, T.Node("Neu5Ac"))]))])
     trees.append(four)
